@@ -220,6 +220,68 @@ def strip_doc(tree):
 
 
 # ------------------------------------------------------------------------------------------
+# Leaf types with their own repr (no pyglove needed)
+# ------------------------------------------------------------------------------------------
+
+import enum  # pylint: disable=wrong-import-position
+
+
+class Tagged(int):
+  """An int subclass whose repr is user text."""
+
+  def __new__(cls, v, tag):
+    o = int.__new__(cls, v)
+    o.tag = tag
+    return o
+
+  def __repr__(self):
+    return self.tag
+
+  def __reduce__(self):
+    return (Tagged, (int(self), self.tag))
+
+
+class Qty(float):
+  """A float subclass whose repr is user text."""
+
+  def __new__(cls, v, tag):
+    o = float.__new__(cls, v)
+    o.tag = tag
+    return o
+
+  def __repr__(self):
+    return self.tag
+
+  def __reduce__(self):
+    return (Qty, (float(self), self.tag))
+
+
+class Color(enum.IntEnum):
+  RED = 1
+  GREEN = 2
+
+
+class Opaque:
+  """A non-symbolic, non-container object whose repr is user text."""
+
+  def __init__(self, tag):
+    self.tag = tag
+
+  def __repr__(self):
+    return self.tag
+
+  def __eq__(self, other):
+    return isinstance(other, Opaque) and other.tag == self.tag
+
+  def __hash__(self):
+    return hash(self.tag)
+
+
+CUSTOM_LEAVES = {'tagged': ('num', 'Tagged'), 'qty': ('num', 'Qty'), 'intenum': ('num', 'Color'),
+                 'opaque': ('opaque', 'Opaque')}
+LEAF_TYPES = ('str', 'int', 'float', 'bool', 'none') + tuple(CUSTOM_LEAVES)
+
+# ------------------------------------------------------------------------------------------
 # Wire helpers
 # ------------------------------------------------------------------------------------------
 
@@ -376,6 +438,15 @@ def gen_key(rng, used):
 
 
 def gen_leaf(rng):
+  if rng.chance(0.12):
+    k = rng.below(4)
+    if k == 0:
+      return {'t': 'tagged', 'v': rng.randint(0, 9), 'tag': gen_string(rng)}
+    if k == 1:
+      return {'t': 'qty', 'v': repr(rng.choice([0.5, 2.0])), 'tag': gen_string(rng)}
+    if k == 2:
+      return {'t': 'intenum', 'v': rng.choice(['RED', 'GREEN'])}
+    return {'t': 'opaque', 'tag': gen_string(rng)}
   r = rng.below(10)
   if r < 5:
     if rng.chance(0.15):
@@ -721,6 +792,10 @@ def strings_of(v, out=None):
   out = [] if out is None else out
   if v['t'] == 'str':
     out.append(v['v'])
+  if 'tag' in v:
+    out.append(v['tag'])
+  if v['t'] == 'intenum':
+    out.append('<Color.%s: 1>' % v['v'])      # its repr has metacharacters
   for k in child_keys(v):
     if isinstance(k, str) and v['t'] != 'obj':
       out.append(k)
@@ -785,7 +860,7 @@ class C20(Prop):
     n_values = 330 if quick else 6000
     for i in range(n_values):
       v = gen_value(rng, rng.randint(0, 3))
-      if v['t'] in ('str', 'int', 'float', 'bool', 'none') and rng.chance(0.7):
+      if v['t'] in LEAF_TYPES and rng.chance(0.7):
         v = gen_value(rng, 2)
       yield {'op': 'render', 'value': v, 'opts': dict(DEFAULT_OPTS)}
       for _ in range(3):
@@ -949,8 +1024,11 @@ class C20(Prop):
             'p': cps(utils.format(kp, root_path=kp, **fmt)),
             'tip': cps(utils.format(value, root_path=kp, **fmt))}
     t = spec['t']
-    if t in ('str', 'int', 'float', 'bool', 'none'):
+    if t in LEAF_TYPES:
       node['leaf'] = t
+      if t in CUSTOM_LEAVES:
+        cls = type(value).__name__
+        node['leaf'] = [CUSTOM_LEAVES[t][0], cps(cls), cps(utils.camel_to_snake(cls, '-'))]
       if t == 'str':
         node['repr'] = cps(repr(value))
         node['raw'] = cps(value)
@@ -1004,6 +1082,14 @@ class C20(Prop):
       return bool(spec['v'])
     if t == 'none':
       return None
+    if t == 'tagged':
+      return Tagged(int(spec['v']), spec['tag'])
+    if t == 'qty':
+      return Qty(float(spec['v']), spec['tag'])
+    if t == 'intenum':
+      return Color[spec['v']]
+    if t == 'opaque':
+      return Opaque(spec['tag'])
     if t == 'dict':
       return {k: self._build(v) for k, v in spec['items']}
     if t == 'pgdict':
@@ -1088,6 +1174,10 @@ class C20(Prop):
     t = spec['t']
     if t == 'str':
       return {'t': 'str', 'v': 'x' * len(spec['v'])}
+    if 'tag' in spec:
+      b = dict(spec)
+      b['tag'] = 'x' * len(spec['tag'])
+      return b
     if t in ('dict', 'pgdict'):
       return {'t': t, 'items': [[self._rekey(k, table), self._benign(v, table)] for k, v in spec['items']]}
     if t == 'obj':
@@ -1292,7 +1382,7 @@ class C20(Prop):
 
     def visit(spec, path):
       t = spec['t']
-      if t in ('str', 'int', 'float', 'bool', 'none'):
+      if t in LEAF_TYPES:
         if t == 'str':
           v = spec['v']
           shown = repr(v) if len(v) < o['max_summary_len_for_str'] else v
@@ -1300,6 +1390,11 @@ class C20(Prop):
           shown = repr(float(spec['v']))
         elif t == 'none':
           shown = 'None'
+        elif t in ('tagged', 'qty', 'opaque'):
+          shown = spec['tag']          # their repr IS the user text
+        elif t == 'intenum':
+          m = Color[spec['v']]
+          shown = next((x for x in (str(int(m)), repr(m), str(m)) if x in have), repr(m))
         else:
           shown = repr(bool(spec['v']) if t == 'bool' else int(spec['v']))
         if shown and shown not in have:
